@@ -1,5 +1,293 @@
-import Luqum.Model.Es
+/-
+  C07 — The query builder refuses exactly the ambiguous AND/OR mixes and the misuse of container
+  fields; every other supported query is translated.
+
+  `ElasticsearchQueryBuilder(**cfg)(tree)` (`esBuild`) first runs `CheckNestedFields`
+  (`nestingCheck`), then the visitor (`esVisit`). The specifications below are stated on
+  (configuration, tree) only (`Luqum.Lemmas.EsDefs`):
+  * `andLike` / `orLike`: `AND` (resp. `OR`) operations, and the implicit operation when the default
+    operator is MUST (resp. SHOULD);
+  * `Mix cfg t`: some and-like or or-like operation has, once its operands of exactly the same kind are
+    flattened into it (`simplify_if_same`), a direct operand of the opposite likeness
+    (`a AND (b OR c)` written without the group, as the tree `.op .and [a, .op .or [b, c]]`);
+  * `misuse cfg t`: the first term (document order; including range bounds and the term of a fuzzy /
+    proximity) whose accumulated dotted field name is a container (a proper prefix of a declared
+    nested or object field) → `nestedSearch`, or — when both `sub_fields` and `object_fields` are
+    configured — has ≥ 2 components and is no declared sub / object / nested field → `objectSearch`;
+  * `Supported t`: words, phrases, ranges between terms, fuzzy, proximity, boost, groups, fields,
+    `+ - NOT`, operations (AND, OR, implicit, Lucene-boolean) with at least two operands. No regex, no
+    one-sided range, no `NoneItem`. Every supported node yields exactly one E-node
+    (`esVisit_single`), so no side condition on the operand of a field / boost / fuzzy is needed.
+
+  Theorems:
+  (a) `orAnd_only_on_mix`   : the AND/OR error is raised only on a mix without misuse (ANY tree);
+  (b) `mix_refused`         : a supported query with a mix and no misuse is refused with it;
+  (c) `misuse_refused`      : a misuse is refused with exactly the error of `misuse` (ANY tree);
+  (d) `translated`          : a supported query without misuse and mix is translated;
+  `refuses_exactly`         : (a)–(d) as one case distinction on supported queries.
+
+  The proofs are on `visitS` (`Luqum.Lemmas.EsStruct`), a structurally recursive presentation of
+  `esVisit` / `esOperand` / `esOperands`, proved equal to them (`esVisit_eq`, `esBuild_eq`); it also
+  makes the builder evaluable by `decide` in the examples.
+
+  Known finding KF5 (see the last example): only the DIRECT container of a declared leaf is a
+  container (`nestedPrefixes` = the declared dotted names minus their last component), so
+  with `{"a": {"b": ["c"]}}` the query `a:x` is not a misuse. This is the documented behaviour of
+  `misuse`, not an exclusion of the theorems.
+-/
+import Luqum.Lemmas.EsBuild
+import Luqum.Lemmas.EsSpecNorm
+
 namespace Luqum.Props.C07
-open Luqum
+open Luqum Luqum.Lemmas.Es
+
+export Luqum.Lemmas.Es (kindAnd kindOr andLike orLike opposite mixOp mixOps Mix MixL termMisuse
+  fieldedTerms fieldedTermsL misuseAt misuse Supported SupportedL)
+
+/-! ### the specifications agree with the class tests of the implementation -/
+
+/-- `andLike` is the builder's `_is_must` -/
+theorem andLike_eq (c : EsCfg) (t : Tree) : andLike c t = c.isMust t := (isMust_eq_andLike c t).symm
+/-- `orLike` is the builder's `_is_should` -/
+theorem orLike_eq (c : EsCfg) (t : Tree) : orLike c t = c.isShould t := (isShould_eq_orLike c t).symm
+
+/-- nothing is both and-like and or-like -/
+theorem not_andLike_and_orLike (c : EsCfg) (t : Tree) : (andLike c t && orLike c t) = false := by
+  cases t with
+  | op k => cases k <;> simp [andLike, orLike, kindAnd, kindOr]
+  | _ => rfl
+
+/-! ### `CheckNestedFields` is `misuse` -/
+
+/-- the checker accepts exactly the queries without misuse -/
+theorem nestingCheck_ok_iff (c : EsCfg) (t : Tree) : nestingCheck c [] t = .ok () ↔ misuse c t = none :=
+  Lemmas.Es.nestingCheck_ok_iff c t
+
+/-- otherwise its error is the one of `misuse` (the first offending term in document order) -/
+theorem nestingCheck_error_iff (c : EsCfg) (t : Tree) (e : EsErr) :
+    nestingCheck c [] t = .error e ↔ misuse c t = some e :=
+  Lemmas.Es.nestingCheck_error_iff c t e
+
+/-! ### the visitor on supported queries -/
+
+/-- every supported node yields exactly one E-node -/
+theorem esVisit_single (c : EsCfg) (x : EsCtx) (t : Tree) (es : List ETree)
+    (hs : Supported t = true) (h : esVisit c x t = .ok es) : es.length = 1 := by
+  have := visit_spec c t x none .none hs
+  rw [← esVisit_eq, h] at this
+  exact this.2 rfl
+
+/-- on a supported query the visitor returns one E-node when there is no mix, and raises the AND/OR
+error when there is one; no other exception escapes -/
+theorem esVisit_supported (c : EsCfg) (x : EsCtx) (t : Tree) (hs : Supported t = true) :
+    (Mix c t = false ∧ ∃ e, esVisit c x t = .ok [e]) ∨
+    (Mix c t = true ∧ ∃ m, esVisit c x t = .error (.orAnd m)) := by
+  have := visit_spec c t x none .none hs
+  rw [← esVisit_eq] at this
+  simp only [parMix_none, Bool.false_or] at this
+  match h : esVisit c x t, this with
+  | .ok es, ⟨h1, h2⟩ =>
+    have := h2 rfl
+    match es, this with
+    | [e], _ => exact .inl ⟨h1, e, rfl⟩
+  | .error (.orAnd m), h1 => exact .inr ⟨h1, m, rfl⟩
+
+/-! ### the four directions -/
+
+/-- **(a)** the AND/OR error is raised only when there is no misuse and there is a mix — for every
+tree, supported or not -/
+theorem orAnd_only_on_mix (c : EsCfg) (t : Tree) (m : Str) (h : esBuild c t = .error (.orAnd m)) :
+    misuse c t = none ∧ Mix c t = true := by
+  unfold esBuild at h
+  split at h
+  · rename_i e he
+    cases h
+    -- the checker never raises the AND/OR error
+    have := (Lemmas.Es.nestingCheck_error_iff c t _).1 he
+    exact absurd this (misuse_ne_orAnd c t m)
+  · rename_i u hu
+    have hu' : nestingCheck c [] t = .ok () := hu
+    refine ⟨(Lemmas.Es.nestingCheck_ok_iff c t).1 hu', ?_⟩
+    split at h
+    · rename_i e he
+      cases h
+      rw [esVisit_eq] at he
+      simpa [parMix_none] using mix_of_orAnd c t {} none m .none he
+    · cases h
+    · cases h
+
+/-- **(c)** a misuse is refused, with the error of the first offending term — for every tree -/
+theorem misuse_refused (c : EsCfg) (t : Tree) (e : EsErr) (h : misuse c t = some e) :
+    esBuild c t = .error e := by
+  unfold esBuild
+  rw [(Lemmas.Es.nestingCheck_error_iff c t e).2 h]
+
+/-- **(b)** a supported query with a mix (and no misuse) is refused with the AND/OR error -/
+theorem mix_refused (c : EsCfg) (t : Tree) (hs : Supported t = true) (hm : misuse c t = none)
+    (hx : Mix c t = true) : ∃ m, esBuild c t = .error (.orAnd m) := by
+  unfold esBuild
+  rw [(Lemmas.Es.nestingCheck_ok_iff c t).2 hm]
+  rcases esVisit_supported c {} t hs with ⟨h1, _⟩ | ⟨_, m, h2⟩
+  · rw [hx] at h1; cases h1
+  · exact ⟨m, by rw [h2]⟩
+
+/-- **(d)** every supported query without misuse and without mix is translated: no exception of any
+kind escapes -/
+theorem translated (c : EsCfg) (t : Tree) (hs : Supported t = true) (hm : misuse c t = none)
+    (hx : Mix c t = false) : ∃ j, esBuild c t = .ok j := by
+  unfold esBuild
+  rw [(Lemmas.Es.nestingCheck_ok_iff c t).2 hm]
+  rcases esVisit_supported c {} t hs with ⟨_, e, h2⟩ | ⟨h1, _⟩
+  · exact ⟨e.json c, by rw [h2]⟩
+  · rw [hx] at h1; cases h1
+
+/-- **C07.** On supported queries the builder refuses exactly the container-field misuses (with the
+checker's error) and the AND/OR mixes (with the AND/OR error), and translates everything else. -/
+theorem refuses_exactly (c : EsCfg) (t : Tree) (hs : Supported t = true) :
+    (∃ e, misuse c t = some e ∧ esBuild c t = .error e) ∨
+    (misuse c t = none ∧ Mix c t = true ∧ ∃ m, esBuild c t = .error (.orAnd m)) ∨
+    (misuse c t = none ∧ Mix c t = false ∧ ∃ j, esBuild c t = .ok j) := by
+  cases hm : misuse c t with
+  | some e => exact .inl ⟨e, rfl, misuse_refused c t e hm⟩
+  | none =>
+    cases hx : Mix c t with
+    | true => exact .inr (.inl ⟨rfl, rfl, mix_refused c t hs hm hx⟩)
+    | false => exact .inr (.inr ⟨rfl, rfl, translated c t hs hm hx⟩)
+
+/-! ### equivalent spellings of the field specifications (used by C19)
+
+The containers of `misuse` and of the `nested` wrapping are `cfg.nestedPrefixes`, `cfg.nestedFlat`,
+`cfg.objectNorm`; they do not depend on how the specification is spelled
+(`Luqum.Lemmas.EsSpecNorm`). -/
+
+export Luqum.Lemmas.EsSpecNorm (SpecEq)
+
+/-- a list of leaf names, or a dict with `None` / `{}` / `[]` values: the same normal form -/
+theorem nested_leaf_spellings {xs : List Str} (h : xs.Nodup) :
+    normalizeNested (.list xs) = normalizeNested (.dict (xs.map fun x => (x, Spec.none))) ∧
+    normalizeNested (.list xs) = normalizeNested (.dict (xs.map fun x => (x, Spec.dict []))) ∧
+    normalizeNested (.list xs) = normalizeNested (.dict (xs.map fun x => (x, Spec.list []))) :=
+  Lemmas.EsSpecNorm.normalizeNested_leaf_spellings h
+
+/-- equivalent spellings of `nested_fields` (`SpecEq`: `None ≈ [] ≈ {}`, a list ≈ the dict of its
+names with empty values, congruence under dict keys) give the same containers -/
+theorem nested_spelling_irrelevant {c c' : EsCfg} (h : SpecEq c.nested c'.nested) :
+    c.nestedNorm = c'.nestedNorm ∧ c.nestedFlat = c'.nestedFlat ∧ c.nestedPrefixes = c'.nestedPrefixes :=
+  ⟨Lemmas.EsSpecNorm.nestedNorm_congr h, Lemmas.EsSpecNorm.nestedFlat_congr h,
+    Lemmas.EsSpecNorm.nestedPrefixes_congr h⟩
+
+/-- normalisation is idempotent -/
+theorem normalizeNested_idem (s : Spec) : normalizeNested (normalizeNested s) = normalizeNested s :=
+  Lemmas.EsSpecNorm.normalizeNested_idem s
+
+/-- `object_fields` spelled as the list of dotted names, or as the dict: the same set -/
+theorem object_dotted_list (kvs : List (Str × Spec)) :
+    normalizeObject (.list ((flattenSpecs (.dict kvs)).map joinDot)) = normalizeObject (.dict kvs) :=
+  Lemmas.EsSpecNorm.normalizeObject_dotted_list kvs
+
+example : ({ nested := .dict [("a".toList, .list ["x".toList, "y".toList])] } : EsCfg).nestedPrefixes =
+    ({ nested := .dict [("a".toList, .dict [("x".toList, .none), ("y".toList, .dict [])])] } : EsCfg).nestedPrefixes := by
+  decide
+
+/-- (kept from the stub stage; referenced by earlier evidence files) -/
 theorem normalizeObject_none : normalizeObject .none = none := rfl
+
+/-! ### non-vacuity, and necessity of `Supported` -/
+
+section Examples
+
+private def w (s : String) : Tree := .term .word s.toList {}
+private def isOrAnd : Except EsErr JVal → Bool | .error (.orAnd _) => true | _ => false
+private def isOk : Except EsErr JVal → Bool | .ok _ => true | _ => false
+private def isNestedSearch : Except EsErr JVal → Bool | .error (.nestedSearch _) => true | _ => false
+private def isObjectSearch : Except EsErr JVal → Bool | .error (.objectSearch _) => true | _ => false
+private def isOther (cls : String) : Except EsErr JVal → Bool
+  | .error (.other c) => c == cls | _ => false
+
+/-- a configuration with a nested field `author.name`, `author.book.title` (nested in nested), an
+object field `meta.lang` and a sub-field `title.raw` -/
+private def cfg : EsCfg :=
+  { defaultMust := true,
+    nested := .dict [("author".toList, .dict [("name".toList, .none),
+                      ("book".toList, .list ["title".toList])])],
+    objectFields := .list ["meta.lang".toList],
+    subFields := .list ["title.raw".toList] }
+
+example : cfg.nestedPrefixes = ["author".toList, "author.book".toList] := by decide
+example : cfg.objectPrefixes = ["meta".toList] := by decide
+
+/-- `author:(name:a AND book.title:"b c"~2) title.raw:[a TO b]^2 -(x y) +z` — everything supported,
+no misuse, no mix (the implicit operation is and-like here, and contains no or-like operand) -/
+private def good : Tree :=
+  .op .unk [
+    .field "author".toList (.group .fieldGroup (.op .and [
+        .field "name".toList (w "a") {},
+        .field "book.title".toList (.approx .proximity (.term .phrase "\"b c\"".toList {}) {} {}) {}] {}) {}) {},
+    .boost (.field "title.raw".toList (.range (w "a") (w "b") true true {}) {}) {} {},
+    .unary .prohibit (.group .group (.op .unk [w "x", w "y"] {}) {}) {},
+    .unary .plus (w "z") {}] {}
+
+example : Supported good = true := by decide
+example : misuse cfg good = none := by decide
+example : Mix cfg good = false := by decide
+example : isOk (esBuild cfg good) = true := by rw [esBuild_eq]; decide
+
+/-- the same with `x OR y` inside the and-like operation, hidden below a same-kind operand that
+`simplify_if_same` flattens: a mix -/
+private def mixed : Tree :=
+  .op .unk [w "a", .op .unk [w "b", .op .or [w "x", w "y"] {}] {}, .field "title.raw".toList (w "c") {}] {}
+
+example : Supported mixed = true := by decide
+example : misuse cfg mixed = none := by decide
+example : Mix cfg mixed = true := by decide
+example : isOrAnd (esBuild cfg mixed) = true := by rw [esBuild_eq]; decide
+/-- with the grouping made explicit there is no mix -/
+example : Mix cfg (.op .unk [w "a", .group .group (.op .or [w "x", w "y"] {}) {}] {}) = false := by decide
+/-- and with the default operator SHOULD the implicit operation mixes with AND instead -/
+example : Mix {} (.op .unk [w "a", .op .or [w "x", w "y"] {}] {}) = false ∧
+    Mix {} (.op .unk [w "a", .op .and [w "x", w "y"] {}] {}) = true := by decide
+
+/-- misuse: a term attributed to the nested container `author`, to the object container `meta`, to
+an unknown dotted field -/
+example : isNestedSearch (esBuild cfg (.field "author".toList (w "a") {})) = true := by
+  rw [esBuild_eq]; decide
+example : isNestedSearch (esBuild cfg (.op .or [w "x", .field "meta".toList (w "a") {}] {})) = true := by
+  rw [esBuild_eq]; decide
+example : isObjectSearch (esBuild cfg (.field "foo.bar".toList (w "a") {})) = true := by
+  rw [esBuild_eq]; decide
+example : (misuse cfg (.field "author".toList (w "a") {})).isSome = true := by decide
+/-- the misuse is reported before (instead of) the mix -/
+example : isNestedSearch (esBuild cfg (.op .and [.op .or [w "x", w "y"] {}, .field "author".toList (w "a") {}] {}))
+    = true := by rw [esBuild_eq]; decide
+
+/-- NEGATIVE witnesses: without `Supported`, (b) and (d) fail.
+* a mixed operand with fewer than two operands: `IndexError` in `_get_operator_extract`, not the
+  AND/OR error; -/
+private def bad1 : Tree := .op .and [w "a", .op .or [w "b"] {}] {}
+example : Supported bad1 = false ∧ misuse cfg bad1 = none ∧ Mix cfg bad1 = true ∧
+    isOther "IndexError" (esBuild cfg bad1) = true := by
+  refine ⟨by decide, by decide, by decide, ?_⟩; rw [esBuild_eq]; decide
+/-- * a regex yields no E-node: `field:/re/` escapes with a `ValueError`, the bare regex with an
+  `IndexError`; -/
+private def bad2 : Tree := .field "title".toList (.term .regex "/a/".toList {}) {}
+example : Supported bad2 = false ∧ misuse cfg bad2 = none ∧ Mix cfg bad2 = false ∧
+    isOther "ValueError" (esBuild cfg bad2) = true := by
+  refine ⟨by decide, by decide, by decide, ?_⟩; rw [esBuild_eq]; decide
+example : isOther "IndexError" (esBuild cfg (.term .regex "/a/".toList {})) = true := by
+  rw [esBuild_eq]; decide
+/-- * a range whose bound is not a term: `AttributeError`. -/
+private def bad3 : Tree := .range (.group .group (w "a") {}) (w "b") true true {}
+example : Supported bad3 = false ∧ isOther "AttributeError" (esBuild cfg bad3) = true := by
+  refine ⟨by decide, ?_⟩; rw [esBuild_eq]; decide
+
+/-- KF5: with `{"a": {"b": ["c"]}}` only `a.b` (the direct container of the leaf `a.b.c`) is a
+container: `a:x` is accepted by the checker and translated as a plain clause on `a` -/
+private def cfg5 : EsCfg := { nested := .dict [("a".toList, .dict [("b".toList, .list ["c".toList])])] }
+example : cfg5.nestedPrefixes = ["a.b".toList] := by decide
+example : misuse cfg5 (.field "a".toList (w "x") {}) = none ∧
+    (misuse cfg5 (.field "a.b".toList (w "x") {})).isSome = true := by decide
+example : isOk (esBuild cfg5 (.field "a".toList (w "x") {})) = true := by rw [esBuild_eq]; decide
+
+end Examples
+
 end Luqum.Props.C07
